@@ -506,7 +506,7 @@ func resultsAfterErrCheck(c *Ctx, key string, call *ssa.Call) int {
 						continue
 					}
 					pred := phi.Block().Preds[k]
-					fs = edgeFactsTo(pred, phi.Block())
+					fs = append(append([]fact{}, factsAt(pred)...), edgeFactsTo(pred, phi.Block())...)
 					if isNil, _ := factNil(fs, ev); !isNil {
 						good = false
 					}
